@@ -49,6 +49,10 @@ var c14Offers = []extElem{
 	{"permessage-deflate; client_max_window_bits=abc", 0, false, false},
 	{"permessage-deflate; client_max_window_bits=7", 0, false, false},
 	{"permessage-deflate; client_max_window_bits=", 0, false, false},
+	{"permessage-deflate; client_max_window_bits=\"10", 0, false, false},
+	{"permessage-deflate; client_max_window_bits=10\"", 0, false, false},
+	{"permessage-deflate; client_max_window_bits=\"\"10\"\"", 0, false, false},
+	{"permessage-deflate; server_max_window_bits=\"15", 0, false, false},
 	{"permessage-deflate; unknown_param", 0, false, false},
 	{"permessage-deflate; unknown_param=1; client_no_context_takeover", 0, true, false},
 	{"permessage-deflate; client_no_context_takeover; client_no_context_takeover", 0, true, false},
